@@ -10,7 +10,8 @@ WriterValues == { Q(1,1,0,0,0,0,0,0,0,0),   \* default
                   Q(1,3,2,0,0,0,0,0,0,0),   \* depth > max_samples_per_instance
                   Q(1,1,2,1,0,0,0,0,0,0),   \* max_samples < max_samples_per_instance
                   Q(1,1,0,1,0,0,0,0,0,0),   \* max_samples limited, per instance unlimited
-                  Q(1,1,0,0,2,0,2,0,0,0) }  \* two representations
+                  Q(1,1,0,0,2,0,2,0,0,0),   \* two representations
+                  Q(1,1,0,0,0,0,0,2,0,0) }  \* user data of 70 000 octets (mutable)
 ReaderValues == { Q(0,1,0,0,0,0,0,0,0,0),
                   Q(0,1,0,0,3,2,0,1,0,0),   \* deadline 3 >= filter 2
                   Q(1,1,0,0,0,0,0,0,0,0),
@@ -26,7 +27,7 @@ TopicValues == { Q(0,1,0,0,0,0,0,0,0,0),
                  Q(0,3,2,0,0,0,0,0,0,0),
                  Q(0,1,2,1,0,0,0,0,0,0) }
 GroupValues == { Q(0,1,0,0,0,0,0,0,0,0), Q(0,1,0,0,0,0,0,1,0,0), Q(0,1,0,0,0,0,0,0,0,1), Q(0,1,0,0,0,0,0,0,1,0), Q(0,1,0,0,0,0,0,1,1,1) }
-ParticipantValues == { Q(0,1,0,0,0,0,0,0,0,0), Q(0,1,0,0,0,0,0,1,0,0) }
+ParticipantValues == { Q(0,1,0,0,0,0,0,0,0,0), Q(0,1,0,0,0,0,0,1,0,0), Q(0,1,0,0,0,0,0,2,0,0) }
 MCValues == CASE Kind = "writer" -> WriterValues [] Kind = "reader" -> ReaderValues [] Kind = "topic" -> TopicValues
               [] Kind \in {"publisher", "subscriber"} -> GroupValues [] OTHER -> ParticipantValues
 MCCanBeDisabled == {"writer", "reader", "topic"}
